@@ -169,18 +169,26 @@ func c02SameBytes(c *Ctx) {
 	c.verdict(okStart, "pChunker.start:start", fn.Pos(), "Start = Next's start + the worker's offset", "the recorded Start is not the chunker's start plus the worker's offset in the file")
 	// IndexFromFile: the worker's offset is the position its file handle was seeked to
 	if ifn := c.mustFn("IndexFromFile"); ifn != nil {
-		var off ssa.Value
-		instrs(ifn, func(_ *ssa.BasicBlock, _ int, ins ssa.Instruction) {
-			if st, ok := ins.(*ssa.Store); ok {
-				if fa, ok := st.Addr.(*ssa.FieldAddr); ok && fieldOf(fa) == "pChunker.offset" {
-					off = st.Val
-				}
-			}
-		})
+		// the store and the seek may have moved together into a constructor of the worker
 		okOff := false
-		for _, s := range calls(ifn, named("(*os.File).Seek")) {
-			if off != nil && sameValue(stripConv(s.Common().Args[1]), stripConv(off)) {
-				okOff = true
+		for _, f := range fnsDeep(ifn) {
+			var off ssa.Value
+			instrs(f, func(_ *ssa.BasicBlock, _ int, ins ssa.Instruction) {
+				if st, ok := ins.(*ssa.Store); ok && ins.Parent() == f {
+					if fa, ok := st.Addr.(*ssa.FieldAddr); ok && fieldOf(fa) == "pChunker.offset" {
+						off = st.Val
+					}
+				}
+			})
+			if off == nil {
+				continue
+			}
+			for _, s := range calls(f, func(name string) bool {
+				return name == "(*os.File).Seek" || name == "(io.Seeker).Seek" || name == "(io.ReadSeeker).Seek"
+			}) {
+				if a := s.Common().Args; len(a) >= 2 && sameValue(stripConv(a[len(a)-2]), stripConv(off)) {
+					okOff = true
+				}
 			}
 		}
 		c.verdict(okOff, "IndexFromFile:worker-offset", ifn.Pos(), "each worker's offset is the position its reader was seeked to", "a worker's offset is not the position its file handle was seeked to")
@@ -762,12 +770,20 @@ func c02MinBelowLimit(c *Ctx) {
 		return onlyOrigins(v, func(o string) bool { return o == "field:Chunker.min" })
 	}
 	isLimit := func(v ssa.Value) bool {
-		phi, ok := v.(*ssa.Phi)
-		if !ok {
-			return false
+		var alts []ssa.Value
+		switch x := v.(type) {
+		case *ssa.Phi:
+			alts = x.Edges
+		case *ssa.Call:
+			// a new helper that computes the limit
+			if h := directCallee(x); h != nil && newHelpers[h] && h.Blocks != nil && h.Signature.Results().Len() == 1 {
+				for _, r := range returnsOf(h) {
+					alts = append(alts, phiEdgesFlat(r.Results[0], 0)...)
+				}
+			}
 		}
 		hasMax := false
-		for _, e := range phi.Edges {
+		for _, e := range alts {
 			if hasOrigin(e, func(o string) bool { return o == "field:Chunker.max" }) {
 				hasMax = true
 			}
@@ -786,6 +802,31 @@ func c02MinBelowLimit(c *Ctx) {
 			c.verdict(okG, "Chunker.Next:scan-needs-room", sl.Pos(), "the boundary scan starts only where min < limit",
 				"the boundary scan is entered although min may equal the limit (min == max): it looks at one more byte before it tests the size, every chunk comes out max+1 bytes long and the index made from them is refused by IndexFromReader")
 		})
+	}
+	if n == 0 {
+		// the window is primed byte by byte: the scan is then anchored at its position counter, the
+		// loop variable that starts at min
+		for _, g := range fnsDeep(fn) {
+			instrs(g, func(b *ssa.BasicBlock, _ int, ins ssa.Instruction) {
+				phi, ok := ins.(*ssa.Phi)
+				if !ok || ins.Parent() != g || !inLoop(b) || !isIntegerType(phi.Type()) {
+					return
+				}
+				fromMin := false
+				for _, e := range phi.Edges {
+					if isMin(e) {
+						fromMin = true
+					}
+				}
+				if !fromMin {
+					return
+				}
+				n++
+				okG, _ := guarded(fn, phi, relAcc(token.LSS, isMin, isLimit))
+				c.verdict(okG, "Chunker.Next:scan-needs-room", phi.Pos(), "the boundary scan starts only where min < limit",
+					"the boundary scan is entered although min may equal the limit (min == max): it looks at one more byte before it tests the size, every chunk comes out max+1 bytes long and the index made from them is refused by IndexFromReader")
+			})
+		}
 	}
 	if n == 0 {
 		c.bad("Chunker.Next:scan-needs-room", fn.Pos(), "the hash window initialisation buf[min-window:min] was not found")
